@@ -83,6 +83,9 @@ class Injector:
         self.counts = {}
         self.arm = None       # (label, k)
         self.fired = False
+        self.total = 0
+        self.budget = None    # deterministic work budget: total starts of monitored functions per call
+        self.budget_hit = False
         self.mon.register_callback(self.tool, self.mon.events.PY_START, self._cb)
         for code in self.codes:
             self.mon.set_local_events(self.tool, code, self.mon.events.PY_START)
@@ -93,6 +96,10 @@ class Injector:
             return
         n = self.counts.get(label, 0) + 1
         self.counts[label] = n
+        self.total += 1
+        if self.budget is not None and self.total > self.budget and not self.budget_hit:
+            self.budget_hit = True
+            raise Injected("work-budget")
         if self.arm is not None and not self.fired and self.arm[0] == label and self.arm[1] == n:
             self.fired = True
             raise Injected("%s#%d" % (label, n))
@@ -104,6 +111,8 @@ class Injector:
 
     def begin(self, arm=None):
         self.counts = {}
+        self.total = 0
+        self.budget_hit = False
         self.arm = arm
         self.fired = False
 
